@@ -214,7 +214,11 @@ func genKids(r *rand.Rand, streamNS string, depth int) []any {
 				if r.Intn(2) == 0 {
 					inner.Attrs = append(inner.Attrs, xml.Attr{Name: xml.Name{Local: "id"}, Value: ""})
 				}
-				kids = append(kids, &elem{Name: xml.Name{Space: "urn:xmpp:forward:0", Local: "forwarded"}, Kids: []any{inner}})
+				if r.Intn(3) == 0 {
+					kids = append(kids, inner) // stanza-named child directly below the top-level element
+				} else {
+					kids = append(kids, &elem{Name: xml.Name{Space: "urn:xmpp:forward:0", Local: "forwarded"}, Kids: []any{inner}})
+				}
 			}
 		case 5:
 			if depth < 3 {
